@@ -623,8 +623,10 @@ def oracle(c, ctx):
                         return dict(inp, **f)
             # a value object's repr/str show that unit
             if s is not None:
-                if ("'%s'" % unit) not in repr(s) or ("'%s'" % cat) not in repr(s):
-                    return dict(inp, clause="repr(Scalar) shows the unit and the category", got=repr(s), unit=unit, category=cat)
+                quoted = re.findall(r"'([^']*)'", repr(s))
+                if "'" not in unit + cat and quoted[:2] != [unit, cat]:
+                    return dict(inp, clause="repr(Scalar) shows the unit, then the category, each in quotes",
+                                got=repr(s), unit=unit, category=cat)
                 if not str(s).endswith(" [%s]" % unit):
                     return dict(inp, clause="str(Scalar) shows the unit", got=str(s), unit=unit)
             from barril.units import Array
@@ -637,12 +639,17 @@ def oracle(c, ctx):
     return None
 
 
-def _subtrees(r):
-    if isinstance(r, list) and r and r[0] in ("mul", "div", "pow", "rdiv", "leaf"):
-        for x in r[1:]:
-            if isinstance(x, list):
-                yield from _subtrees(x)
-        yield r
+def _reductions(r):
+    """trees one step smaller: a node replaced by one of its operands, or an operand reduced"""
+    if not isinstance(r, list) or r[0] == "leaf":
+        return
+    for i, x in enumerate(r):
+        if isinstance(x, list):
+            yield x
+            for y in _reductions(x):
+                yield r[:i] + [y] + r[i + 1:]
+    if r[0] == "pow" and r[2] > 2:
+        yield ["pow", r[1], r[2] - 1]
 
 
 def shrink(case, failure, ctx):
@@ -650,15 +657,17 @@ def shrink(case, failure, ctx):
     if t["kind"] not in ("expr", "quant"):
         return case, failure
     best = (case, failure)
-    size = len(repr(t["recipe"]))
-    for sub in _subtrees(t["recipe"]):
-        if len(repr(sub)) >= size:
-            continue
-        kind = "expr" if uses_rdiv(sub) else t["kind"]
-        c2 = _strings_case(ctx, dict(kind=kind, recipe=sub))
-        if c2 is None:
-            continue
-        f2 = oracle(c2, ctx)
-        if f2:
-            best, size = (c2, f2), len(repr(sub))
+    tree = t["recipe"]
+    for _round in range(60):
+        for sub in _reductions(tree):
+            kind = "expr" if uses_rdiv(sub) else t["kind"]
+            c2 = _strings_case(ctx, dict(kind=kind, recipe=sub))
+            if c2 is None:
+                continue
+            f2 = oracle(c2, ctx)
+            if f2:
+                best, tree = (c2, f2), sub
+                break
+        else:
+            break
     return best
